@@ -16,7 +16,6 @@ import sys
 VERIF = os.path.dirname(os.path.dirname(os.path.abspath(__file__)))
 ALL = "C01 C02 C03 C04 C05 C06 C08 C09 C10 C11 C12 C13 C14 C15 C16 C17 C19".split()
 EXPECTED_MISSES = {
-    "C14-b": "sort() replaced by sort_by_key(num_lits): whether an arbitrary key groups equal cubes is not decidable here; the obligation is UNDECIDED, not silent",
 }
 
 
